@@ -355,6 +355,7 @@ func (e *Engine) runPath(in *Interp, fn *ssa.Function, item WorkItem, wantSample
 	in.nextID = e.snapNextID
 	in.steps = 0
 	in.curFrame = nil
+	in.watchShared, in.sharedSeen = 0, nil
 	in.solver.Reset()
 	ps := &PathState{prefix: item.prefix, prefixModel: item.model}
 	if len(item.prefix) == 0 {
